@@ -68,7 +68,7 @@ def run_case(case):
     x = xyz()
     desc = case["desc"]
     spec = {"vars": desc["vars"], "sizes": desc["sizes"], "ret": desc["ret"],
-            "log": None}
+            "log": None, "str_var": desc.get("str_var")}
     fn = labelled.make_fn(spec)
     models.LOG.clear()
     entry = case["entry"]
@@ -184,8 +184,9 @@ def run_case(case):
                                         **call_opts)
             else:
                 if combos:
-                    call_opts["combos"] = tuple(
-                        (a, list(v)) for a, v in combos.items())
+                    call_opts["combos"] = dict(combos) \
+                        if case.get("sub_spelling") == "dict" else tuple(
+                            (a, list(v)) for a, v in combos.items())
                 out = runner.run_cases(cases_in, constants=call_consts,
                                        **call_opts)
     require(attrs == attrs_before and consts == consts_before,
@@ -289,13 +290,19 @@ def runner_desc(draw, to_df=False, allow_xobj=True):
     dim_coords = {}
     for d in used:
         dim_coords[d] = draw(st.sampled_from(
-            ["coords", "constant", "none"] if not xobj else ["none"]))
+            ["coords", "constant", "none"] if not xobj else
+            ["none", "constant"]))
     consts = draw(gens.constants(2))
     resources = draw(st.sampled_from(
         [{}, {}, {"big": [1, 2, 3]}, {"res": "x", "lookup": 7}]))
     attrs = draw(st.sampled_from(
         [{}, {"note": "hello"}, {"version": 3, "tag": "a-b"}]))
-    return {"vars": vars_, "sizes": sizes, "ret": ret,
+    str_var = None
+    scalars = [j for j, (_, d) in enumerate(vars_) if not d]
+    if scalars and ret in ("single", "tuple", "list") and \
+            draw(st.sampled_from([False, False, True])):
+        str_var = draw(st.sampled_from(scalars))   # a string-valued output
+    return {"str_var": str_var, "vars": vars_, "sizes": sizes, "ret": ret,
             "names_spelling": draw(st.sampled_from(
                 ["tuple", "list"] + (["str"] if nvars == 1 else []))),
             "dims_spelling": draw(st.sampled_from(spellings)),
@@ -340,6 +347,7 @@ def strategy(draw):
             case["subgrid"] = []
         case["case_spelling"] = draw(st.sampled_from(["dict", "tuple"]))
         case["key_rot"] = draw(st.integers(0, 2))
+        case["sub_spelling"] = draw(st.sampled_from(["pairs", "dict"]))
     return case
 
 
